@@ -120,7 +120,17 @@ fn oracle(c: &SCase, st: &mut Stats) -> Result<(), String> {
       SOp::Transfer | SOp::Fork => {
         let bytes = bincode::serialize(&server.get_private_key()).map_err(|e| format!("export failed: {e}"))?;
         let state: ServerKeyState = bincode::deserialize(&bytes).map_err(|e| format!("exported key state does not restore: {e}"))?;
-        let mut importer = Server::new(c.other_mds.clone()).map_err(|e| e.to_string())?;
+        // every other importer has already served requests and punctured a tag under its own key
+        let mut imp_tags = c.other_mds.clone();
+        imp_tags.extend(c.mds.iter().cloned());
+        let mut importer = Server::new(imp_tags.clone()).map_err(|e| e.to_string())?;
+        if i % 2 == 0 {
+          for md in imp_tags.iter().take(10) {
+            let _ = importer.eval(&probe, *md, false);
+          }
+          let _ = importer.puncture(imp_tags[imp_tags.len() - 1]);
+          st.class("importer-had-served-requests");
+        }
         importer.set_private_key(state);
         transfers += 1;
         let what = format!("importer of the state exported after op {i} (punctured {:?})", punctured);
